@@ -139,6 +139,26 @@ def trash(ctx, rule='C17.R4'):
     model = ctx.model
     bake = model.func('Recipe.bake')
     ff = ctx.flow('Recipe.bake')
+    # wells before and after a step are paired by position: both sequences must be the same traversal of the plate
+    # (the recorded state before, the recorded state after) - a traversal of the addressed region zipped with a
+    # traversal of the whole plate pairs different wells and stops at the shorter one
+    import re as _re
+    nzip = 0
+    for lp in ast.walk(bake.node):
+        if not (isinstance(lp, ast.For) and isinstance(lp.iter, ast.Call) and getattr(lp.iter.func, 'id', '') == 'zip'
+                and len(lp.iter.args) == 2):
+            continue
+        texts = [unparse(a, 200) for a in lp.iter.args]
+        if not any('wells' in t or '.get()' in t for t in texts):
+            continue
+        nzip += 1
+        norm = [_re.sub(r"\[[01]\]", '[K]', t) for t in texts]
+        same = norm[0] == norm[1] and texts[0] != texts[1]
+        ctx.ob(rule, bake, lp.lineno, 'wells before and after a step are paired through the same traversal of the plate', same,
+               fact=f"zip({texts[0][:50]}, {texts[1][:50]})", why='position k of one sequence is another well than position k of '
+               'the other (and zip stops at the shorter): what a well lost is computed against a different well',
+               key='before/after wells paired through different traversals')
+    ctx.count('well_pairings_in_bake', nzip)
     stores = [s for s in ff.stores if s[2] and (s[2] == 'step.trash' or s[2].startswith('step.trash['))]
     floor(ctx, 'stores to step.trash', len(stores), 2)
     for stmt, target, key, value, before, rt in stores:
